@@ -9,6 +9,7 @@ mod files;
 mod fsx;
 mod hist;
 mod image;
+mod manisim;
 mod model;
 mod rng;
 mod seq;
@@ -18,9 +19,14 @@ use std::path::Path;
 
 use util::Args;
 
-pub fn replay_other(engine: &str, _text: &str, _path: &Path) -> i32 {
-    eprintln!("HARNESS-ERROR: unknown replay engine {engine}");
-    2
+pub fn replay_other(engine: &str, text: &str, path: &Path) -> i32 {
+    match engine {
+        "manisim" => manisim::replay(text, path),
+        _ => {
+            eprintln!("HARNESS-ERROR: unknown replay engine {engine}");
+            2
+        }
+    }
 }
 
 fn main() {
@@ -44,6 +50,7 @@ fn main() {
     let code = match argv[1].as_str() {
         "seq" => seq::cmd_seq(&args),
         "crash" => crash::cmd_crash(&args),
+        "mani" => manisim::cmd_mani(&args),
         "replay" => {
             let p = args.free.first().cloned().unwrap_or_default();
             seq::cmd_replay(Path::new(&p))
